@@ -467,7 +467,7 @@ def wide_params(rng):
     return {"ratio": g(1, 0.5, 3, 0.1, 0, -1), "sessions_uplift": g(0.0, 0.25, -0.25, -0.6, 1.0),
             "orders_uplift": g(0.0, 0.1, -0.5, -0.9, 2.0, 2.9, 3.5, -1.0), "revenue_uplift": g(0.0, 0.1, -0.9, 4.0, -1.0),
             "avg_sessions": g(2, 1.01, 1.5, 10, 1), "avg_orders_per_session": g(0.25, 0.01, 0.6, 0.99, 1.0),
-            "avg_revenue_per_order": g(10, 0.01, 1000.0, 0)}
+            "avg_revenue_per_order": g(10, 0.01, 1000.0, 0, 1e12, 3e17)}
 
 
 def accepted(p):
